@@ -343,7 +343,7 @@ class RuleGen:
 		kind = rng.choice(['root-name', 'rule-name', 'rule-short', 'rule-token', 'unwrap-name', 'expr-name', 'token-as-tree', 'tree-as-token',
 			'rep-value', 'rep-tree', 'rep-empty-children', 'bad-make', 'dup-rule', 'symbol-quoted', 'first-not-token'])
 		name, rules = tree
-		rules = [(r[0], list(r[1])) for r in rules]
+		rules = [(r[0], list(r[1])) for r in rules if not isinstance(r[1], str)]
 		i = rng.randrange(len(rules)) if rules else 0
 
 		def edit_expr(e: Any) -> Any:
@@ -379,6 +379,8 @@ class RuleGen:
 		if not rules:
 			return tree
 		rn, rb = rules[i]
+		if len(rb) < 3:
+			return (name, rules)
 		if kind == 'rule-name':
 			rules[i] = (rng.choice(['rules', 'entry', 'symbol']), rb)
 		elif kind == 'rule-short':
